@@ -10,6 +10,14 @@ CLAIMED = {
           "Random search over operator chains x inputs compared with an independent list-semantics interpreter, plus complete enumeration of every single catalogue operator over all inputs of length <= 4 over {0,1,2} x every terminal. Exploration: a passing run means no counterexample within the stated bounds.",
           "Trusts the reference interpreter in harness/src/model.rs (written from the doc comments), the fixed family of predicate/map/fold functions, and that boxing (box_it) is transparent.",
           "DESIGN.md §3 C03"),
+  "C01": ("engine-P", "invariant-over-history PBT: generated pipelines x event scripts (proptest tapes + shrinking), grammar oracle on the delivered history",
+          "Random search over pipelines of the whole operator catalogue (local and thread-safe builds, every scheduler mode on a virtual clock) driven by scripts with post-terminal events and repeated terminals; the delivered history must match Next* (Error|Complete)?. Exploration within the stated depth/length bounds.",
+          "Trusts the probe observer and the AST builder. Note (DESIGN §9): terminals consume the observer by value, so safe Rust already enforces the grammar at any single by-value observer; the check confirms it over the explored space.",
+          "DESIGN.md §3 C01"),
+  "C18": ("engine-P", "differential / metamorphic PBT: every generated case is built from local types and from thread-safe types and the two delivered histories are compared",
+          "Each generated pipeline+script is run twice on one thread (local forms vs every _threads/Threads form, same virtual scheduler choices); traces, is_closed() samples and finalize counts must be identical; a panic or self-deadlock in one build only is a difference. Exploration within the stated bounds.",
+          "Trusts the two instantiations of the same builder text (build_body.rs) to differ only in the local/thread-safe forms; self-deadlock of a non-reentrant MutArc is detected through the verif_hooks lock hook.",
+          "DESIGN.md §3 C18"),
 }
 WIP = "check not built yet in this revision (work in progress, see DESIGN.md §10 build order)"
 
@@ -39,7 +47,7 @@ m = {
     "guard": "cargo feature `verif_hooks` of rxrust (off by default)",
     "enable": "the harness crate /verif/harness depends on /repo by path with features=[\"futures-scheduler\",\"verif_hooks\"] and default-features=false (so the public NEW_TIMER_FN virtual clock is used)",
     "baseline_off_cmd": "cd /repo && cargo test --workspace --no-fail-fast --offline",
-    "source_commits": HOOK_COMMITS if (HOOK_COMMITS := []) else [],
+    "source_commits": ["82b6cfd"],
     "add_only": True,
   },
   "engines": [
